@@ -22,19 +22,26 @@ EXTENDS Naturals, Sequences, FiniteSets, TLC
 
 CONSTANTS Files,      \* sequence of assembly file keys in directory walk order
           Sources,    \* set of source ids
-          Compiles(_) \* Compiles(s): does source s compile on its own
+          Compiles(_), \* Compiles(s): does source s compile on its own
+          Formats(_),  \* Formats(s): can source s be formatted (no unbalanced end marker, no bad flag ...)
+          FmtAborts(_) \* FmtAborts(s): formatting s ends the whole process (a deliberate panic), not just this file
 
-VARIABLES src, canon, stored, rulesFile, tests, marks, exit, wrote, hist
-vars == <<src, canon, stored, rulesFile, tests, marks, exit, wrote, hist>>
+VARIABLES src, canon, stored, rulesFile, tests, marks,   \* the tree
+          exit, wrote,                                    \* what the last command reported / changed
+          last,                                           \* the last command (<<>>: none yet)
+          pre                                             \* the tree before the last command
+vars == <<src, canon, stored, rulesFile, tests, marks, exit, wrote, last, pre>>
 tree == <<src, canon, stored, rulesFile, tests, marks>>
+TreeRec == [src |-> src, canon |-> canon, stored |-> stored, rulesFile |-> rulesFile, tests |-> tests, marks |-> marks]
 
 FileSet == { Files[i] : i \in 1..Len(Files) }
-G(s) == <<"G", s>>                        \* the regex generated from source s (uninterpreted)
+G(s) == "G:" \o s                        \* the regex generated from source s (uninterpreted)
 
 Present(f)  == src[f] # "none"
 CanGen(f)   == Present(f) /\ Compiles(src[f])
 Found(f)    == rulesFile = "one" /\ stored[f] # "norule"
-Log(c)      == hist' = Append(hist, c)
+CanFmt(f)   == Present(f) /\ Formats(src[f])
+Log(c)      == last' = c /\ pre' = TreeRec
 
 (***************************************************************************)
 (* Inspecting commands.                                                    *)
@@ -55,9 +62,9 @@ CompareAll(github) ==
     IN  /\ exit' = IF broken \/ (github /\ stale) THEN 1 ELSE 0
         /\ wrote' = {} /\ UNCHANGED tree /\ Log(<<"compare-all", github>>)
 
-FormatCheck(f) == /\ exit' = IF Present(f) /\ canon[f] THEN 0 ELSE 1
+FormatCheck(f) == /\ exit' = IF CanFmt(f) /\ canon[f] THEN 0 ELSE 1
                   /\ wrote' = {} /\ UNCHANGED tree /\ Log(<<"format-check", f>>)
-FormatCheckAll == /\ exit' = IF \A f \in FileSet : Present(f) => canon[f] THEN 0 ELSE 1
+FormatCheckAll == /\ exit' = IF \A f \in FileSet : Present(f) => (canon[f] /\ Formats(src[f])) THEN 0 ELSE 1
                   /\ wrote' = {} /\ UNCHANGED tree /\ Log(<<"format-check-all">>)
 RenumberCheck  == /\ exit' = IF tests = "numbered" THEN 0 ELSE 1
                   /\ wrote' = {} /\ UNCHANGED tree /\ Log(<<"renumber-check">>)
@@ -88,22 +95,34 @@ UpdateAll ==
     /\ wrote' = { <<"rules", f>> : f \in { g \in FileSet : r.stored[g] # stored[g] } }
     /\ UNCHANGED <<src, canon, rulesFile, tests, marks>> /\ Log(<<"update-all">>)
 
-Format(f) == /\ IF Present(f) THEN canon' = [canon EXCEPT ![f] = TRUE] /\ exit' = 0
+Format(f) == /\ IF CanFmt(f) THEN canon' = [canon EXCEPT ![f] = TRUE] /\ exit' = 0
                 ELSE exit' = 1 /\ UNCHANGED canon
-             /\ wrote' = IF Present(f) /\ ~canon[f] THEN {<<"ra", f>>} ELSE {}
+             /\ wrote' = IF CanFmt(f) /\ ~canon[f] THEN {<<"ra", f>>} ELSE {}
              /\ UNCHANGED <<src, stored, rulesFile, tests, marks>> /\ Log(<<"format", f>>)
-FormatAll == /\ canon' = [f \in FileSet |-> IF Present(f) THEN TRUE ELSE canon[f]]
-             /\ exit' = 0
-             /\ wrote' = { <<"ra", f>> : f \in { g \in FileSet : Present(g) /\ ~canon[g] } }
-             /\ UNCHANGED <<src, stored, rulesFile, tests, marks>> /\ Log(<<"format-all">>)
+\* format --all: the files in walk order; a file that cannot be formatted is reported and the
+\* run goes on (failing at the end), unless formatting it ends the process
+RECURSIVE FormatFold(_, _)
+FormatFold(i, st) ==       \* st = [canon, exit, stop]
+    IF i > Len(Files) \/ st.stop THEN st
+    ELSE LET f == Files[i] IN
+         IF ~Present(f) THEN FormatFold(i + 1, st)
+         ELSE IF Formats(src[f]) THEN FormatFold(i + 1, [st EXCEPT !.canon[f] = TRUE])
+         ELSE FormatFold(i + 1, [st EXCEPT !.exit = 1, !.stop = FmtAborts(src[f])])
+FormatAll ==
+    LET r == FormatFold(1, [canon |-> canon, exit |-> 0, stop |-> FALSE]) IN
+    /\ canon' = r.canon /\ exit' = r.exit
+    /\ wrote' = { <<"ra", f>> : f \in { g \in FileSet : r.canon[g] # canon[g] } }
+    /\ UNCHANGED <<src, stored, rulesFile, tests, marks>> /\ Log(<<"format-all">>)
 
 Renumber == /\ tests' = "numbered" /\ exit' = 0
             /\ wrote' = IF tests = "numbered" THEN {} ELSE {<<"tests">>}
             /\ UNCHANGED <<src, canon, stored, rulesFile, marks>> /\ Log(<<"renumber">>)
 
-Copyright(v) == /\ marks' = v /\ exit' = 0
-                /\ wrote' = IF marks = v THEN {} ELSE {<<"marks">>}
-                /\ UNCHANGED <<src, canon, stored, rulesFile, tests>> /\ Log(<<"copyright", v>>)
+\* a version that is not a semantic version is rejected before anything is touched
+Copyright(v, valid) ==
+    /\ IF valid THEN marks' = v /\ exit' = 0 ELSE exit' = 1 /\ UNCHANGED marks
+    /\ wrote' = IF valid /\ marks # v THEN {<<"marks">>} ELSE {}
+    /\ UNCHANGED <<src, canon, stored, rulesFile, tests>> /\ Log(<<"copyright", v>>)
 
 (***************************************************************************)
 (* Properties.                                                             *)
@@ -111,20 +130,31 @@ Copyright(v) == /\ marks' = v /\ exit' = 0
 IsInspect(c) == c[1] \in {"generate", "compare", "compare-all", "format-check", "format-check-all", "renumber-check"}
 
 \* C15: inspecting commands never write; every command writes only its own kind of target
-FrameOK == /\ (hist # <<>> /\ IsInspect(hist[Len(hist)])) => wrote = {}
-           /\ hist # <<>> =>
-                LET c == hist[Len(hist)] IN
-                /\ c[1] = "update"     => wrote \subseteq {<<"rules", c[2]>>}
-                /\ c[1] = "update-all" => \A w \in wrote : w[1] = "rules"
-                /\ c[1] = "format"     => wrote \subseteq {<<"ra", c[2]>>}
-                /\ c[1] = "format-all" => \A w \in wrote : w[1] = "ra"
-                /\ c[1] = "renumber"   => wrote \subseteq {<<"tests">>}
-                /\ c[1] = "copyright"  => wrote \subseteq {<<"marks">>}
+FrameOK == last # <<>> =>
+    /\ IsInspect(last) => (wrote = {} /\ TreeRec = pre)
+    /\ last[1] = "update"     => wrote \subseteq {<<"rules", last[2]>>}
+    /\ last[1] = "update-all" => \A w \in wrote : w[1] = "rules"
+    /\ last[1] = "format"     => wrote \subseteq {<<"ra", last[2]>>}
+    /\ last[1] = "format-all" => \A w \in wrote : w[1] = "ra"
+    /\ last[1] = "renumber"   => wrote \subseteq {<<"tests">>}
+    /\ last[1] = "copyright"  => wrote \subseteq {<<"marks">>}
+    \* and `wrote' is exactly what differs between pre and the tree
+    /\ (wrote = {}) <=> (TreeRec = pre)
 
-\* C16: a command that fails leaves its target as it was (single-target commands: the whole tree)
-LoudOK == [][ (exit' = 1 /\ hist' # hist /\ hist'[Len(hist')][1] # "update-all") => UNCHANGED tree ]_vars
+\* C16: a command that fails leaves the tree as it was (update --all: what it had
+\* already written before the failing file may stay)
+LoudOK == (last # <<>> /\ exit = 1 /\ last[1] \notin {"update-all", "format-all"}) => TreeRec = pre
 
-\* C12 at this level: right after a successful update compare succeeds
-RoundTripOK == [][ (hist # <<>> /\ hist[Len(hist)][1] = "update" /\ exit = 0
-                    /\ hist' # hist /\ hist'[Len(hist')] = <<"compare", hist[Len(hist)][2], FALSE>>) => exit' = 0 ]_vars
+\* C12 at this level: a successful update makes compare succeed
+RoundTripOK == (last # <<>> /\ last[1] = "update" /\ exit = 0) => CompareResult(last[2]) = 0
+
+\* C08: when every present file can be processed, --all is the composition of the single
+\* invocations (which commute: each touches only its own target)
+AllIsSingles ==
+    /\ (last = <<"update-all">> /\ exit = 0) =>
+          \A f \in FileSet : pre.src[f] # "none" => stored[f] = G(src[f])
+    /\ (last = <<"update-all">>) =>
+          \A f \in FileSet : stored[f] \in {pre.stored[f], G(src[f])}
+    /\ (last = <<"format-all">> /\ exit = 0) => \A f \in FileSet : Present(f) => canon[f]
+    /\ (last = <<"format-all">>) => \A f \in FileSet : canon[f] => (pre.canon[f] \/ CanFmt(f))
 =============================================================================
